@@ -27,6 +27,7 @@ func checkC10(c *Ctx, r *Report) {
 	r.rule("C10.R8", "the reference keeps designating the record that receives the session's usage: where a session is continued in a new record, the entry under its reference is that new record (shared with C02.R9)", 2)
 	r.rule("C10.R9", "the reference a create answers with is the one it registered its new record under (shared with C12.R1): a create that answers with a reference that exists already hands one session's reference to another", 4)
 	r.rule("C10.R10", "the subscriber pool is read and written under the identifier as received (one key for create, update and release)", 3)
+	r.rule("C10.R11", "the record a reference designates is looked up under the subscriber's lock (shared with C09.R1): a request that reads ue.Cdr[ref] before it has the lock goes on with the record that was current then, although the holder of the lock may have continued the session in a new one", 8)
 	r.rule("C10.R3", "ue.Cdr is written only in create (key = the reference) and in update/release under the request's own reference", 1)
 
 	create := c.fn("internal/sbi/processor", "Processor.ChargingDataCreate")
@@ -176,7 +177,7 @@ func checkC10(c *Ctx, r *Report) {
 		r.check(fresh, "C10.R6", key+"|record registered under the new reference", posOf(c, mu), "every record that can be registered under the new reference is built in this step ("+why+")", "the record registered under the newly allocated reference can be one that exists already ("+why+"): two references then designate one record - updates and the release addressed to either act on the other session's record, and one session never gets a record of its own")
 	}
 	poolKeysAsReceived(c, r, "C10.R10")
-	r.shareFrom(c, checkC09, map[string]string{"C09.R5": "C10.R7"})
+	r.shareFrom(c, checkC09, map[string]string{"C09.R5": "C10.R7", "C09.R1": "C10.R11"})
 	r.shareFrom(c, checkC02, map[string]string{"C02.R9": "C10.R8"})
 	r.shareFrom(c, checkC12, map[string]string{"C12.R1": "C10.R9"})
 	checkPoolLifetime(c, r, "C10.R5", "a create that fetched the context before the removal registers its record in the orphaned object and answers 201 with a reference that the next update or release (which look the subscriber up again and get a fresh context) cannot find - the reference designates no session")
